@@ -1,4 +1,239 @@
-/- Model driver for the O5m format family (C01/C02/C03 parts) — stub. -/
+/-
+Model driver for the o5m parts of C02/C03.  Ops (one per line):
+
+  dec <assert 0|1> <readTypes 0..7> <hex>
+        -> "ok <header> | <object dump> | ..."  or  "err:<kind>" / "oob" / "ub:<kind>"
+  gen <seed> <profile> <nobjects> <refAnon 0|1>
+        -> "<hex of the file the SPEC ENCODER produced> TAB <tokens> TAB <expected: header | objects ...>"
+           (random object list + random choice vector, both derived from <seed>);
+           tokens: "r:<hex>" bytes outside datasets, "d<type>:<k><hex>;..." dataset with its fields
+           (k: n number, l section length, i table index, m inline marker, s string bytes) — the
+           structure the hostile-input generator of C03 damages field by field
+-/
+import Osmium.Model.O5m
+import Osmium.Model.O5mSpec
 import Driver.Common
 
-def main : IO Unit := pure ()
+open Osmium Osmium.O5m Driver
+open Osmium.Osm hiding hex hexChar Bytes
+
+def dumpFileHeader (h : FileHeader) : String :=
+  s!"h {if h.multipleVersions then "H" else "S"} ts={h.timestamp}" ++
+    String.join (h.boxes.map fun (a, b) => s!" B{dumpLoc a};{dumpLoc b}")
+
+def dumpResult (h : FileHeader) (os : List Object) : String :=
+  " | ".intercalate (dumpFileHeader h :: os.map dump)
+
+def showRes : Res (FileHeader × List Object) → String
+  | .ok (h, os) => "ok " ++ dumpResult h os
+  | .err e => "err:" ++ e.name
+  | .oob => "oob"
+  | .ub u => u.name
+
+/-! random generation (SplitMix64, same constants as tools/vlib.py) -/
+
+structure Rng where
+  s : UInt64
+
+def Rng.next (r : Rng) : UInt64 × Rng :=
+  let s := r.s + 0x9E3779B97F4A7C15
+  let z := s
+  let z := (z ^^^ (z >>> 30)) * 0xBF58476D1CE4E5B9
+  let z := (z ^^^ (z >>> 27)) * 0x94D049BB133111EB
+  (z ^^^ (z >>> 31), ⟨s⟩)
+
+abbrev G := StateM Rng
+
+def below (n : Nat) : G Nat := do
+  let r ← get
+  let (v, r') := r.next
+  set r'
+  pure (if n == 0 then 0 else v.toNat % n)
+
+def chance (num den : Nat) : G Bool := do return (← below den) < num
+
+def pick {α : Type} [Inhabited α] (xs : List α) : G α := do
+  let i ← below xs.length
+  pure (xs.getD i default)
+
+def genInt (lo hi : Int) : G Int := do
+  let span := (hi - lo + 1).toNat
+  let v ← below span
+  pure (lo + v)
+
+/-- a byte that is not NUL -/
+def genByte : G UInt8 := do
+  let c ← below 6
+  if c == 0 then pure (UInt8.ofNat (1 + (← below 255)))
+  else pure (UInt8.ofNat (97 + (← below 26)))
+
+def genBytes (n : Nat) : G Bytes := do
+  let mut out := []
+  for _ in [0:n] do
+    out := (← genByte) :: out
+  pure out
+
+/-- string lengths: mostly short, sometimes around the table limit (pair length 250..254
+    including the two NULs), sometimes long (up to 1024) -/
+def genStr (pool : Nat) (long : Bool) : G Bytes := do
+  let c ← below 20
+  if c < 12 then
+    -- from a small pool, so that back-references are possible
+    let k ← below pool
+    pure ((s!"k{k}").toUTF8.toList)
+  else if c < 17 then genBytes (← below 12)
+  else if c < 19 && long then genBytes (120 + (← below 12))
+  else if long then
+    let l ← pick [0, 1, 124, 125, 126, 127, 248, 249, 250, 251, 252, 600, 1023, 1024]
+    genBytes l
+  else genBytes (← below 30)
+
+def boundaryIds : List Int :=
+  [0, 1, -1, 2, -2, 63, 64, -64, -65, 8191, 8192, 2147483647, 2147483648, -2147483648, 4294967296,
+   9223372036854775807, -9223372036854775808, 9223372036854775806, -9223372036854775807]
+
+def genId : G Int := do
+  let c ← below 10
+  if c < 3 then pick boundaryIds
+  else if c < 8 then genInt (-200) 3000
+  else genInt (-9223372036854775808) 9223372036854775807
+
+def genCoord : G Int := do
+  let c ← below 10
+  if c < 2 then pick [0, 1, -1, 2147483647, -2147483648, 1800000000, -1800000000, 900000000, -900000000]
+  else if c < 8 then genInt (-1800000000) 1800000000
+  else genInt (-2147483648) 2147483647
+
+def genTags (pool : Nat) (long : Bool) : G (List Tag) := do
+  let n ← pick [0, 0, 1, 1, 2, 3, 5]
+  let mut out := []
+  for _ in [0:n] do
+    out := { key := (← genStr pool long), value := (← genStr pool long) : Tag } :: out
+  pure out
+
+def genMeta (pool : Nat) (long : Bool) (visible : Bool) : G Meta := do
+  let id ← genId
+  let c ← below 10
+  let tags ← if visible then genTags pool long else pure []
+  if c == 0 then
+    -- no info section at all
+    pure { id, visible, tags }
+  else
+    let version ← pick [1, 1, 2, 3, 127, 128, 2147483647]
+    if c == 1 then
+      -- version only
+      pure { id, version, visible, tags }
+    else
+      let timestamp ← pick [1, 2, 1000000000, 1600000000, 1600000001, 1599999999, 4294967295, 2147483648]
+      let changeset ← pick [0, 1, 2, 100, 99, 4294967295, 12345678]
+      let anon ← chance 1 6
+      if anon then pure { id, version, visible, timestamp, changeset, tags }
+      else
+        let uid ← pick [1, 2, 127, 128, 45445, 4294967295]
+        let user ← genStr pool long
+        pure { id, version, visible, timestamp, changeset, uid, user, tags }
+
+def genObject (kind : Nat) (pool : Nat) (long : Bool) : G Object := do
+  let visible ← chance 9 10
+  let m ← genMeta pool long visible
+  if kind == 0 then
+    if visible then pure (.node m ⟨← genCoord, ← genCoord⟩) else pure (.node m Location.undefined)
+  else if kind == 1 then
+    if visible then
+      let n ← pick [0, 0, 1, 2, 3, 8]
+      let mut refs : List NodeRef := []
+      for _ in [0:n] do
+        refs := { ref := (← genId) } :: refs
+      pure (.way m refs)
+    else pure (.way m [])
+  else
+    if visible then
+      let n ← pick [0, 0, 1, 2, 3, 6]
+      let mut ms : List Member := []
+      for _ in [0:n] do
+        ms := { type := 1 + (← below 3), ref := (← genId), role := (← genStr pool long) } :: ms
+      pure (.relation m ms)
+    else pure (.relation m [])
+
+/-- profile: 0 = mixed small, 1 = nodes only, 2 = sorted n/w/r, 3 = burst of distinct strings
+    (forces table wrap-around), 4 = tiny -/
+def genFile (profile n : Nat) (refAnon : Bool) : G (O5mSpec.File × O5mSpec.Choices) := do
+  let long := profile != 4
+  let pool ← pick [2, 4, 12]
+  let mut objs : List Object := []
+  if profile == 3 then
+    -- n nodes with 6 fresh tags each, then a few objects that refer far back
+    for i in [0:n] do
+      let mut tags : List Tag := []
+      for j in [0:6] do
+        tags := { key := (s!"b{i}").toUTF8.toList, value := (s!"v{j}x{i}").toUTF8.toList : Tag } :: tags
+      objs := .node { id := (i : Int), tags } ⟨1, 2⟩ :: objs
+    -- objects whose tags were written 1 … > 15000 table entries ago (6 entries per burst node)
+    for _ in [0:40] do
+      let back ← pick [1, 2, 3, 100, 2490, 2497, 2498, 2499, 2500, 2501, 2502, 2503, 2600]
+      let src := if back ≤ n then n - back else 0
+      let j ← below 6
+      let t : Tag := { key := (s!"b{src}").toUTF8.toList, value := (s!"v{j}x{src}").toUTF8.toList }
+      objs := .node { id := (7 : Int), tags := [t] } ⟨3, 4⟩ :: objs
+    for _ in [0:8] do
+      objs := (← genObject (← below 3) 3 false) :: objs
+  else
+    for i in [0:n] do
+      let kind ← if profile == 1 then pure 0
+        else if profile == 2 then pure (if 3 * i < n then 0 else if 3 * i < 2 * n then 1 else 2)
+        else below 3
+      objs := (← genObject kind pool long) :: objs
+  let objs2 := objs.reverse
+  -- header datasets
+  let boxes ← if (← chance 1 3) then do
+      let x1 ← genCoord; let y1 ← genCoord; let x2 ← genCoord; let y2 ← genCoord
+      -- keep the Box precondition (ordered) so that the file is valid for debug builds as well
+      pure [((⟨min x1 x2, min y1 y2⟩ : Location), (⟨max x1 x2, max y1 y2⟩ : Location))]
+    else pure []
+  let ts ← if (← chance 1 3) then pick [1, 1600000000, 4294967295] else pure 0
+  let o5c ← chance 1 4
+  let file : O5mSpec.File := { o5c, boxes, timestamp := ts, objects := objs2 }
+  -- choice vector
+  let nch := 40 + 12 * objs2.length * (if profile == 3 then 2 else 4)
+  let refBias ← if profile == 3 then pure 4 else pick [0, 1, 3, 4, 4]     -- out of 4: how often a back-reference is used when possible
+  let resetBias ← if profile == 3 then pure 0 else pick [0, 0, 1, 4]     -- out of 20
+  let mut useRef : List Nat := []
+  for _ in [0:nch] do
+    let use ← chance refBias 4
+    let which ← pick [0, 0, 0, 1, 2, 7]
+    useRef := (if use then 1 + which else 0) :: useRef
+  let mut before : List Nat := []
+  for _ in [0:objs2.length + 3] do
+    -- 0 nothing, 1 reset, 2 unknown dataset, 3 sync, 4 jump, 5 reset+reset, 6 0xf0 byte
+    let r ← chance resetBias 20
+    let o ← pick [0, 0, 0, 0, 0, 0, 2, 3, 4]
+    let two ← chance 1 5
+    before := (if r then (if two then 5 else 1) else o) :: before
+  let trailer ← pick [0, 0, 1, 2]
+  let resetAtStart ← chance 3 4
+  let omitAnonUser ← chance 1 2
+  pure (file, { useRef, before, trailer, resetAtStart, omitAnonUser, refAnon })
+
+def showTok : O5mSpec.Tok → String
+  | .raw bs => "r:" ++ hex bs
+  | .ds t fs => "d" ++ hex [t] ++ ":" ++ ";".intercalate (fs.map fun (f : O5mSpec.Field) => f.kind.name ++ hex f.bytes)
+
+def runGen (seed profile n : Nat) (refAnon : Bool) : String :=
+  let ((file, ch), _) := (genFile profile n refAnon).run ⟨UInt64.ofNat (seed * 2654435761 + profile * 97 + n)⟩
+  let toks := O5mSpec.encodeToks ch file
+  hex (O5mSpec.flattenToks toks) ++ "\t" ++ ",".intercalate (toks.map showTok) ++ "\t" ++
+    dumpResult (O5mSpec.expectedHeader file) file.objects
+
+def step (line : String) : String :=
+  match words line with
+  | ["dec", a, rt, h] =>
+    match unhex h, rt.toNat? with
+    | some bs, some rt => showRes (decode { assertions := a == "1", readTypes := rt } bs)
+    | _, _ => "bad-op"
+  | ["gen", seed, profile, n, ra] =>
+    match seed.toNat?, profile.toNat?, n.toNat? with
+    | some s, some p, some n => runGen s p n (ra == "1")
+    | _, _, _ => "bad-op"
+  | _ => "bad-op"
+
+def main : IO Unit := loopPure step
